@@ -300,7 +300,7 @@ def run_unit(unit, workdir, tier):
     shutil.copy(p, os.path.join(gen_dir, unit + '.rs'))
     # verdict cache: keyed by the generated text (always rebuilt from /repo first), so a hit means the very same
     # obligations were already decided for this tree state.  Optimisation only; VERIF_NO_CACHE=1 disables it.
-    ckey = hashlib.sha256((G.text + '\0' + GR.text + '\0verus-0.2026.09.13\0' + tier + '\0' + json.dumps(sorted(p.tag['ob'] for p in G.pieces if p.tag and 'ob' in p.tag))).encode()).hexdigest()
+    ckey = hashlib.sha256((G.text + '\0' + GR.text + '\0verus-0.2026.09.13\0' + tier + '\0' + json.dumps(sorted(p.tag['ob'] for p in G.pieces if p.tag and 'ob' in p.tag)) + '\0' + json.dumps(sorted([f[2], sorted(f[3] or [])] for f in G.fn_spans))).encode()).hexdigest()
     cpath = os.path.join(VERIF, '.cache', 'units', ckey + '.json')
     if os.environ.get('VERIF_NO_CACHE') != '1' and os.path.exists(cpath):
         try:
